@@ -61,7 +61,22 @@ fn tolerances<M: ConvexCellMarker>(c: &Case, cell: &ConvexCell<M>, b: &RefBundle
     let four_pi = 4. * std::f64::consts::PI;
     let r_lib = cell.vertices.iter().map(|v| v.loc.distance(cell.loc)).fold(0., f64::max);
     let r = b.r3.max(r_lib);
-    Tols { vol: VAR_FACTOR * b.var_volume + eps * four_pi * r * r + 1e-11 * b.base.volume, r, eps, well: kmax <= tol::KAPPA_WELL }
+    // close pairs (this generator and a neighbour, or two neighbours): the bisector between them
+    // is only defined up to a rotation by the snapping / rounding of their positions, which
+    // changes the first and second moments at first order (the volume only at second order, so
+    // the measured sensitivity of the volume does not cover it)
+    let rights: Vec<DVec3> = cell.clipping_planes.iter().filter(|p| p.right_idx.is_some()).map(|p| 2. * p.plane.p - cell.loc).collect();
+    let mut s_min = rights.iter().map(|x| x.distance(cell.loc)).fold(f64::INFINITY, f64::min);
+    for (a, ra) in rights.iter().enumerate() {
+        for rb in &rights[..a] {
+            let dd = ra.distance(*rb);
+            if dd > 0. {
+                s_min = s_min.min(dd);
+            }
+        }
+    }
+    let pair_slack = if s_min.is_finite() { tol::snap_theta(c, s_min) * r * mvv::cellinfo::ball_surface(c.d(), r) } else { 0. };
+    Tols { vol: VAR_FACTOR * b.var_volume + eps * four_pi * r * r + 1e-11 * b.base.volume + pair_slack, r, eps, well: kmax <= tol::KAPPA_WELL }
 }
 
 /// Clause "exact signed decomposition": moments of the recorded tetrahedra vs the reference.
